@@ -322,11 +322,20 @@ def l_contact(L):
     import z3
     src = open(os.path.join(L.repo, 'pyPRISM/core/System.py')).read()
     tol = None
+    tols = []
     for n in ast.walk(ast.parse(src)):
-        if isinstance(n, ast.FunctionDef) and n.name == 'check':
-            for a in ast.walk(n):
+        if isinstance(n, ast.ClassDef) and n.name == 'System':
+            for a in ast.walk(n):       # `tol = <literal>` in check() or in a helper of it, or a helper's default `tol=<literal>`
                 if isinstance(a, ast.Assign) and isinstance(a.targets[0], ast.Name) and a.targets[0].id == 'tol' and isinstance(a.value, ast.Constant):
-                    tol = a.value.value
+                    tols.append(a.value.value)
+                if isinstance(a, ast.FunctionDef):
+                    pos = a.args.args
+                    for arg, d in list(zip(pos[len(pos) - len(a.args.defaults):], a.args.defaults)) + \
+                            [(x, y) for x, y in zip(a.args.kwonlyargs, a.args.kw_defaults) if y is not None]:
+                        if arg.arg == 'tol' and isinstance(d, ast.Constant):
+                            tols.append(d.value)
+    tols = [t for t in tols if isinstance(t, (int, float)) and t > 0]
+    tol = max(tols) if tols else None
     L.check('System.check defines the on-grid tolerance as a literal', tol is not None, backend='syntactic')
     if tol is None:
         return
